@@ -24,6 +24,7 @@ type SimPacket struct {
 	Key, Value    []byte
 	Cas, RevNo    uint64
 	Flags, Expiry uint32
+	DeleteTime    uint32 // tombstone creation time of a deletion / expiration (seconds), as the server supplies it
 	Datatype      uint8
 	CollectionID  uint32
 	// end
@@ -730,13 +731,17 @@ func deliver(ev *simEvent) {
 	o := ev.st.obs
 	switch p.Kind {
 	case "marker":
-		o.SnapshotMarker(DcpSnapshotMarker{StartSeqNo: p.SnapStart, EndSeqNo: p.SnapEnd, VbID: p.Vb, SnapshotType: 1})
+		st := SnapshotState(1) // memory
+		if p.Flags != 0 {
+			st = SnapshotState(p.Flags) // (marker packets: Flags = snapshot type, e.g. 2 = disk / backfill)
+		}
+		o.SnapshotMarker(DcpSnapshotMarker{StartSeqNo: p.SnapStart, EndSeqNo: p.SnapEnd, VbID: p.Vb, SnapshotType: st})
 	case "mutation":
 		o.Mutation(DcpMutation{SeqNo: p.Seq, RevNo: p.RevNo, Cas: p.Cas, Flags: p.Flags, Expiry: p.Expiry, CollectionID: p.CollectionID, VbID: p.Vb, Datatype: p.Datatype, Key: p.Key, Value: p.Value})
 	case "deletion":
-		o.Deletion(DcpDeletion{SeqNo: p.Seq, RevNo: p.RevNo, Cas: p.Cas, CollectionID: p.CollectionID, VbID: p.Vb, Datatype: p.Datatype, Key: p.Key, Value: p.Value})
+		o.Deletion(DcpDeletion{SeqNo: p.Seq, RevNo: p.RevNo, Cas: p.Cas, DeleteTime: p.DeleteTime, CollectionID: p.CollectionID, VbID: p.Vb, Datatype: p.Datatype, Key: p.Key, Value: p.Value})
 	case "expiration":
-		o.Expiration(DcpExpiration{SeqNo: p.Seq, RevNo: p.RevNo, Cas: p.Cas, CollectionID: p.CollectionID, VbID: p.Vb, Key: p.Key})
+		o.Expiration(DcpExpiration{SeqNo: p.Seq, RevNo: p.RevNo, Cas: p.Cas, DeleteTime: p.DeleteTime, CollectionID: p.CollectionID, VbID: p.Vb, Key: p.Key})
 	case "seqadv":
 		o.SeqNoAdvanced(DcpSeqNoAdvanced{SeqNo: p.Seq, VbID: p.Vb})
 	case "oso":
